@@ -275,7 +275,8 @@ fn tcp_sum_oracle(sig: &tcp::Signature, obs: &TcpObservation) -> Option<u32> {
         d += 2;
     }
     d += obs.wsize.distance_window_size(&sig.wsize, obs.mss)?; // checked in c12_window_pairs
-    if sig.wscale.is_some() && sig.wscale != obs.wscale {
+    // (an absent window-scale option means scale 0)
+    if sig.wscale.is_some() && sig.wscale.unwrap_or(0) != obs.wscale.unwrap_or(0) {
         d += 1;
     }
     if obs.olayout != sig.olayout || obs.quirks != sig.quirks {
